@@ -16,8 +16,15 @@ for d in tests:
     os.makedirs(os.path.dirname(dst + "/check/" + d), exist_ok=True)
     shutil.copy(wt + "/" + d, dst + "/check/" + d)
 changed = sorted(set(l[6:].strip() for l in open(dst + "/patch.diff") if l.startswith("+++ b/")))
-meta = {"property": cid, "kind": "behaviour-preserving refactoring",
-        "source": "independent sub-agent given only the property text and a scratch worktree (no access to /verif), asked for 6-12 realistic behaviour-preserving edits of the code the property depends on, with a check test that passes before and after",
-        "changed_files": changed, "check_tests": ["check/" + d for d in tests], "expect": "silent", "props": [cid]}
+prop = cid.split("-")[0]
+if cid.endswith("-b2"):
+    kind = "property-preserving maintenance change (performance tweaks, logging, defensive checks, new accessors/helpers, control-flow restructuring)"
+    src_txt = "independent sub-agent given only the property text and a scratch worktree (no access to /verif), asked for 6-10 realistic maintenance edits of different kinds that do not affect the property (tools/evolver_prompt.tmpl), with a check test that passes before and after"
+else:
+    kind = "behaviour-preserving refactoring"
+    src_txt = "independent sub-agent given only the property text and a scratch worktree (no access to /verif), asked for 6-12 realistic behaviour-preserving edits of the code the property depends on, with a check test that passes before and after"
+meta = {"property": prop, "kind": kind,
+        "source": src_txt,
+        "changed_files": changed, "check_tests": ["check/" + d for d in tests], "expect": "silent", "props": [prop]}
 json.dump(meta, open(dst + "/meta.json", "w"), indent=1)
 print(cid, changed)
